@@ -15,9 +15,11 @@ entry point has to answer. The theorems of `Props/C13.lean` say that the model o
 namespace Heimdall.EntryView.Spec
 open Heimdall Heimdall.EntryView
 
+/-- the raw path of the view is the received spelling of the path with the octets that may not stand in a path
+    percent-encoded; the path is its decoding; the query is taken as received -/
 def url (lr : LReq) : URLv :=
-  { scheme := lr.scheme, host := lr.host, path := unescapeOrEmpty lr.rawPath, rawPath := lr.rawPath,
-    rawQuery := lr.query }
+  { scheme := lr.scheme, host := lr.host, path := unescapeOrEmpty (receivedL lr.rawPath),
+    rawPath := receivedL lr.rawPath, rawQuery := lr.query }
 
 /-- the view before a rule has been looked up -/
 def obj (lr : LReq) : ReqObj := { method := lr.method, url := url lr, captures := none }
@@ -49,10 +51,12 @@ def headersMapAt (ep : EP) (lr : LReq) : List (Bytes × Bytes) :=
 
 /-! ## Which logical requests the statement is about (decidable) -/
 
-/-- the path starts with a slash and is written in the encoding Go's `net/url` accepts as is (RFC 3986 `pchar`s
-    and `/`, well-formed escapes) — what a client sends; anything else is rejected or re-encoded by `net/http`
-    before heimdall sees it -/
-def validPath (p : Bytes) : Bool := p.head? = some '/' && validEncodedPath p && (pathUnescapeL p).isSome
+/-- a path as it can stand in the request line of a message `net/http` accepts: it starts with a slash, contains no
+    `?` (that starts the query), no blank and no control octet, and its escapes are well-formed. Octets that may not
+    stand in a path (`"`, `<`, `>`, `^`, `` ` ``, `{`, `|`, `}`, `\`, `#`, non-ASCII) are allowed here. -/
+def validPath (p : Bytes) : Bool :=
+  p.head? = some '/' && !p.contains '?' && p.all (fun c => 0x20 < c.toNat && c.toNat ≠ 0x7f) &&
+  (pathUnescapeL p).isSome
 
 /-- header names are tokens (`net/http` rejects the message otherwise) and none of them is `Host` (that line is the
     `host` component) or one of the hop headers the `trustedproxy` middleware removes (C09) -/
@@ -63,6 +67,16 @@ def plainHeaders (lr : LReq) : Bool :=
 def oneCookieLine (lr : LReq) : Bool := (headerValues lr b!"Cookie").length ≤ 1
 
 def wellFormed (lr : LReq) : Bool := validPath lr.rawPath && plainHeaders lr && oneCookieLine lr
+
+/-- the repairs `fixes/C13-1 … C13-5` of the Envoy request context are in place -/
+def repaired (I : Impl) : Bool := I.cachesView && I.splitsTarget && I.canonHeader && I.stdCookies && I.bodyFallback
+
+/-- What the theorems cover: a repaired implementation and a well-formed logical request whose path, unless the Envoy
+    request context encodes them too (proposed `fixes/C13-6`), contains no octet that may not stand in a path — for
+    such octets the HTTP based services keep `%XX` in the raw path and the Envoy service the octet itself (known
+    finding `C13-envoy-raw-path-octets`). -/
+def covered (I : Impl) (lr : LReq) : Bool :=
+  repaired I && wellFormed lr && (I.encodesPath || validEncodedPath lr.rawPath)
 
 /-! ## Running a rule set on the view -/
 
